@@ -60,12 +60,28 @@ package respondent
 //@   ensures name == protocol.OptionRecvDeadline ==> (isnil(result) <==> is_duration(v))
 //@   ensures name == protocol.OptionRecvDeadline && !isnil(result) ==> result == protocol.ErrBadValue
 //@   ensures name == protocol.OptionRecvDeadline && isnil(result) ==> c.recvExpire == int_of(v)
-//@   ensures !isnil(result) ==> unchanged(c.bestEffort, c.recvExpire, c.sendExpire)
+//@   ensures !isnil(result) && (name == protocol.OptionBestEffort || name == protocol.OptionSendDeadline || name == protocol.OptionRecvDeadline) ==> unchanged(c.bestEffort, c.recvExpire, c.sendExpire)
 //@
 //@ func (*context).GetOption
 //@   ensures name != protocol.OptionBestEffort && name != protocol.OptionSendDeadline && name != protocol.OptionRecvDeadline ==> result1 == protocol.ErrBadOption && isnil(result0)
 //@   ensures name == protocol.OptionBestEffort ==> isnil(result1) && result0 == iface(c.bestEffort)
 //@   ensures name == protocol.OptionSendDeadline ==> isnil(result1) && result0 == iface(c.sendExpire)
 //@   ensures name == protocol.OptionRecvDeadline ==> isnil(result1) && result0 == iface(c.recvExpire)
+//@
+//@ func (*socket).SetOption
+//@   ensures name == protocol.OptionWriteQLen ==> (isnil(result) <==> is_int(v) && 0 <= int_of(v))
+//@   ensures name == protocol.OptionWriteQLen && !isnil(result) ==> result == protocol.ErrBadValue
+//@   ensures name == protocol.OptionWriteQLen && isnil(result) ==> s.sendQLen == int_of(v)
+//@   ensures name == protocol.OptionReadQLen ==> (isnil(result) <==> is_int(v) && 0 <= int_of(v))
+//@   ensures name == protocol.OptionReadQLen && !isnil(result) ==> result == protocol.ErrBadValue
+//@   ensures name == protocol.OptionReadQLen && isnil(result) ==> s.recvQLen == int_of(v)
+//@   ensures name == protocol.OptionTTL ==> (isnil(result) <==> is_int(v) && 1 <= int_of(v) && int_of(v) <= 255)
+//@   ensures name == protocol.OptionTTL && !isnil(result) ==> result == protocol.ErrBadValue
+//@   ensures name == protocol.OptionTTL && isnil(result) ==> s.ttl == int_of(v)
+//@
+//@ func (*socket).GetOption
+//@   ensures name == protocol.OptionWriteQLen ==> isnil(result1) && result0 == iface(s.sendQLen)
+//@   ensures name == protocol.OptionReadQLen ==> isnil(result1) && result0 == iface(s.recvQLen)
+//@   ensures name == protocol.OptionTTL ==> isnil(result1) && result0 == iface(s.ttl)
 //@
 // ---- end generated option contracts ----
